@@ -167,6 +167,25 @@ var ops = []opDef{
 		}
 		return ptrRes(a.z.Sqrt(v), a.z)
 	}},
+	// value semantics at the math/big bridge: the integer MathBigInt hands out and the one
+	// SetMathBigInt was given are the caller's; changing them in place must not reach the BigInt
+	{"MathBigIntThenMutate", "", func(a bargs) any { return a.x.String() }, func(a aargs) any {
+		m := a.x.MathBigInt()
+		res := m.String()
+		m.Lsh(m, 70)
+		m.Add(m, big.NewInt(1))
+		m.Neg(m)
+		return res
+	}},
+	{"SetMathBigIntThenMutate", "z", func(a bargs) any { a.z.Set(a.x); return a.z.String() }, func(a aargs) any {
+		m := new(big.Int).Set(a.x.MathBigInt())
+		a.z.SetMathBigInt(m)
+		res := a.z.String()
+		m.Lsh(m, 70)
+		m.Add(m, big.NewInt(1))
+		m.Neg(m)
+		return res
+	}},
 	{"SetBytes", "z", func(a bargs) any { return ptrRes(a.z.SetBytes(a.x.Bytes()), a.z) }, func(a aargs) any { return ptrRes(a.z.SetBytes(a.x.Bytes()), a.z) }},
 	{"SetBits", "z", func(a bargs) any { return ptrRes(a.z.SetBits(append([]big.Word(nil), a.x.Bits()...)), a.z) },
 		func(a aargs) any { return ptrRes(a.z.SetBits(append([]big.Word(nil), a.x.Bits()...)), a.z) }},
